@@ -104,12 +104,15 @@ func (s *SharedFile) Acquire() (ReadAtCloser, error) {
 			return nil, err
 		}
 		s.file = f
+		s.verifEvent("sf.open")
 	}
 	s.refs++
 	s.gen++
+	s.verifEvent("sf.acquire")
 	file := s.file
 	pool := s.pool
 	s.mu.Unlock()
+	verifPoint("sf.acquire.beforeTouch")
 
 	// Touch after releasing s.mu: SharedFile never holds s.mu
 	// while calling into the pool (see Acquire and Close), so
@@ -138,6 +141,7 @@ func (s *SharedFile) Release() {
 	}
 	s.refs--
 	s.gen++
+	s.verifEvent("sf.release")
 
 	if s.refs > 0 || s.closed || s.file == nil {
 		return
@@ -151,6 +155,7 @@ func (s *SharedFile) Release() {
 		s.immediateClose = false
 		_ = s.file.Close()
 		s.file = nil
+		s.verifEvent("sf.close.immediate")
 		return
 	}
 
@@ -171,6 +176,7 @@ func (s *SharedFile) Release() {
 		_ = s.file.Close()
 		s.file = nil
 		s.timer = nil
+		s.verifEvent("sf.close.timer")
 	})
 }
 
@@ -227,8 +233,10 @@ func (s *SharedFile) Close() error {
 		err = s.file.Close()
 		s.file = nil
 	}
+	s.verifEvent("sf.close.final")
 	pool := s.pool
 	s.mu.Unlock()
+	verifPoint("sf.close.beforeForget")
 
 	if pool != nil {
 		pool.Forget(&s.poolHandle)
@@ -278,11 +286,13 @@ func (s *SharedFile) ReleaseNow() error {
 		}
 		err := s.file.Close()
 		s.file = nil
+		s.verifEvent("sf.close.releasenow")
 		return err
 	}
 
 	// refs > 0: latch immediate close for the next refs == 0
 	// transition. In-flight readers complete normally.
 	s.immediateClose = true
+	s.verifEvent("sf.latch")
 	return nil
 }
